@@ -829,6 +829,10 @@ def _archunkgenerator(array, dtype=None, chunklen=None):
                 yield np.asarray(chunk, dtype=dtype)
     elif hasattr(array, '__len__') and not hasattr(array, 'keys'):
         # may be numpy array or sequence
+        if not hasattr(array, 'dtype'):
+            # a sequence is one array-like object: its numeric type follows
+            # from all of its elements, not from those of the first chunk
+            array = np.asarray(array, dtype=dtype)
         totallen = len(array)
         if totallen == 0:
             yield np.asarray(array, dtype=dtype)
